@@ -41,9 +41,12 @@ const c18MaxL1Script = 1500
 // ---------- histories
 
 type hstep struct {
-	Op   string     `json:"op"`             // set | setall | build | unit (first step: go through EnvironmentsUnit.Envs(scope))
+	Op   string     `json:"op"`             // set | setall | build | unit (first step: go through EnvironmentsUnit.Envs(scope)) | all | scribble | reuse (c18_alias.go)
 	Kind string     `json:"kind,omitempty"` // build: ssh | dcmd
 	KVs  [][2][]int `json:"kvs,omitempty"`  // set: one pair; setall: the map (sorted)
+	On   int        `json:"on,omitempty"`   // which of the history's two Environments objects the step addresses
+	Mode string     `json:"mode,omitempty"` // scribble: what the caller does to every map it handed in or got back
+	Src  int        `json:"src,omitempty"`  // reuse: SetAll with the src-th map of an earlier SetAll (the same map object)
 }
 
 func hSet(k, v string) hstep {
@@ -67,29 +70,72 @@ func intsToS(l []int) string {
 	return string(b)
 }
 
-// runHistory executes the steps on one fresh Environments object and judges every build
+// one Environments object of a history: the object, what the accepted calls configured on it (kept by the
+// harness, entry by entry: it shares nothing with any map that crossed the API), and the calls as Coq terms
+type hcont struct {
+	e   commservices.Environments
+	ref map[string]string
+	scp app.Scope
+	ops []string // env_op terms (Proofs/C18More.v) of the Set / SetAll calls made on this object
+	oks []string // what each of them returned (nil = true)
+}
+
+// a map that the harness, playing the caller, handed to SetAll and kept: [m] is that very map object,
+// [want] what the caller knows it to hold (its own writes to it, nothing else)
+type hkept struct{ m, want map[string]string }
+
+func sortedKVs(m map[string]string) []kv {
+	l := make([]kv, 0, len(m))
+	for k, v := range m {
+		l = append(l, kv{k, v})
+	}
+	sort.Slice(l, func(a, b int) bool { return l[a].K < l[b].K })
+	return l
+}
+
+func coqEnvOps(l []string) string { return coqList(l) }
+
+// runHistory executes the steps on fresh Environments objects (one, or two when steps say on=1) and judges
+// every build and every All() against the reference maps
 func (c *c18) runHistory(steps []hstep) {
 	o := c.o
-	e := envs.NewEnvironments()
-	ref := map[string]string{}
+	var conts [2]*hcont
 	var unit *envs.Unit
-	var scp app.Scope
+	var ins []*hkept                // maps handed IN (SetAll arguments), kept by the caller
+	var outs []map[string]string    // maps handed OUT (All() results), kept by the caller
+	ghostNames := map[string]bool{} // plain names the caller wrote into its own maps only
+	nscribble := 0
 	for i, st := range steps {
 		desc := map[string]interface{}{"op": "history", "steps": steps[:i+1]}
+		if st.Op == "unit" {
+			unit = &envs.Unit{}
+			o.Stat("history_via_unit")
+			continue
+		}
+		if st.Op == "scribble" {
+			c.scribble(st.Mode, nscribble, ins, outs, ghostNames)
+			nscribble++
+			o.Stat("history_scribble")
+			continue
+		}
+		on := st.On & 1
+		if conts[on] == nil {
+			conts[on] = &hcont{e: envs.NewEnvironments(), ref: map[string]string{}, scp: scope.New(scope.Params{})}
+		}
+		ct := conts[on]
 		if unit != nil { // as the sandboxes do: the scope's Environments is fetched anew for every use
 			var err error
-			if e, err = unit.Envs(scp); err != nil || e == nil {
+			if ct.e, err = unit.Envs(ct.scp); err != nil || ct.e == nil {
 				o.Fail("builder_total", fmt.Sprintf("history step %d: EnvironmentsUnit.Envs(scope) failed: %v", i, err), "builder", desc)
 				return
 			}
 		}
+		e, ref := ct.e, ct.ref
 		switch st.Op {
-		case "unit":
-			unit, scp = &envs.Unit{}, scope.New(scope.Params{})
-			o.Stat("history_via_unit")
 		case "set":
 			k, v := intsToS(st.KVs[0][0]), intsToS(st.KVs[0][1])
 			accepted := e.Set(k, v) == nil
+			ct.ops, ct.oks = append(ct.ops, "OSet "+coqStr(k)+" "+coqStr(v)), append(ct.oks, coqBool(accepted))
 			if accepted != c18PlainIdent(k) {
 				o.Fail("names", fmt.Sprintf("history step %d: Set(%q, ..) accepted=%v, plain identifier=%v", i, k, accepted, c18PlainIdent(k)), "names", desc)
 				return
@@ -98,37 +144,69 @@ func (c *c18) runHistory(steps []hstep) {
 				ref[k] = v
 			}
 			o.Stat("history_set")
-		case "setall":
-			m := map[string]string{}
-			allPlain := true
-			for _, p := range st.KVs {
-				m[intsToS(p[0])] = intsToS(p[1])
-				allPlain = allPlain && c18PlainIdent(intsToS(p[0]))
+		case "setall", "reuse":
+			var kept *hkept
+			if st.Op == "reuse" {
+				if len(ins) == 0 {
+					continue
+				}
+				kept = ins[st.Src%len(ins)] // the SAME map object once more, as the caller now knows it
+				o.Stat("history_setall_same_map_again")
+			} else {
+				kept = &hkept{m: map[string]string{}, want: map[string]string{}}
+				for _, p := range st.KVs {
+					kept.m[intsToS(p[0])] = intsToS(p[1])
+					kept.want[intsToS(p[0])] = intsToS(p[1])
+				}
+				ins = append(ins, kept)
 			}
-			ok := e.SetAll(m) == nil
+			allPlain := true
+			for k := range kept.want {
+				allPlain = allPlain && c18PlainIdent(k)
+			}
+			ok := e.SetAll(kept.m) == nil
+			ct.ops, ct.oks = append(ct.ops, "OSetAll "+coqEnv(sortedKVs(kept.want))), append(ct.oks, coqBool(ok))
 			if ok != allPlain {
-				o.Fail("setall_all_or_nothing", fmt.Sprintf("history step %d: SetAll(%q) ok=%v, all names plain=%v", i, m, ok, allPlain), "setall", desc)
+				o.Fail("setall_all_or_nothing", fmt.Sprintf("history step %d: SetAll(%q) ok=%v, all names plain=%v", i, kept.want, ok, allPlain), "setall", desc)
 				return
 			}
 			if ok {
-				for k, v := range m {
+				for k, v := range kept.want {
 					ref[k] = v
 				}
 			}
 			o.Stat("history_setall")
+		case "all":
+			got := e.All()
+			o.Stat("history_all")
+			if diff := c18MapDiff(ref, got); diff != "" {
+				o.Fail("configured_only", fmt.Sprintf("history step %d: the Environments object no longer holds what Set / SetAll configured on it: %s (the maps that the caller passed to SetAll or got from All() are the caller's: writing to them, or to another Environments object, is not a way to configure this one)", i, diff), "aliasing", desc)
+				return
+			}
+			o.AddCase(fmt.Sprintf("CHist %s %s %s", coqEnvOps(ct.ops), coqList(ct.oks), coqEnv(sortedKVs(got))), desc, fmt.Sprint("h:", ct.ops, sortedKVs(got)), len(ct.ops) > 0)
+			outs = append(outs, got)
 		case "build":
 			cur := map[string]string{}
-			var l []kv
+			total := 0
 			for k, v := range ref {
 				cur[k] = v
-				l = append(l, kv{k, v})
+				total += len(k)*2 + len(v) + 12
 			}
-			sort.Slice(l, func(a, b int) bool { return l[a].K < l[b].K })
+			l := sortedKVs(cur)
 			desc["kind"] = st.Kind
 			desc["env"] = descEnv(l)
 			desc["pub"], desc["sec"] = []int{}, []int{}
 			o.Stat("history_build")
-			if !c.runBuilt(st.Kind, e, cur, "", "", desc, true) {
+			c.ghosts = nil
+			for g := range ghostNames {
+				if _, configured := ref[g]; !configured {
+					c.ghosts = append(c.ghosts, g)
+				}
+			}
+			sort.Strings(c.ghosts)
+			good := c.runBuilt(st.Kind, e, cur, "", "", desc, total <= c18MaxL1Script)
+			c.ghosts = nil
+			if !good {
 				return // the first wrong build of a history is the report
 			}
 		}
@@ -202,6 +280,8 @@ func (c *c18) histories(thorough bool) {
 		steps = append(steps, hBuild(kinds[rng.Intn(2)]))
 		run(steps)
 	}
+	// (c) the caller keeps the maps that crossed the API and goes on writing to them (c18_alias.go)
+	c.aliasHistories(thorough, run)
 }
 
 // ---------- second exhaustive family: every single byte, and every word over the characters that matter
